@@ -12,5 +12,18 @@ macro_rules! cfg {
 fn main() {
     let mut run = Run::from_args("C08", "c08");
     vcore::core_configs!(cfg, run);
+    // logarithms on very wide types (estimates from the bit length go wrong only far above 1024 bits)
+    {
+        let stride = if run.tier == Tier::Thorough { 1 } else { 16 };
+        let mut ops = t::d64::u::<64, BigRef>();
+        ops.retain(|o| o.name.contains("ilog"));
+        run.explore(&ops, &plans::wide_log_plan::<d64::U<64>>(stride));
+        let mut ops = t::d64::i::<64, BigRef>();
+        ops.retain(|o| o.name.contains("ilog"));
+        run.explore(&ops, &plans::wide_log_plan::<d64::I<64>>(stride));
+        let mut ops = t::d16::u::<200, BigRef>();
+        ops.retain(|o| o.name.contains("ilog"));
+        run.explore(&ops, &plans::wide_log_plan::<d16::U<200>>(stride * 2));
+    }
     std::process::exit(run.finish());
 }
